@@ -4290,3 +4290,38 @@ impl<T: TypeConfig> LeaderState<T> {
         v
     }
 }
+
+/// Remaining milliseconds (saturating, against `tokio::time::Instant::now()`) until the deadline of
+/// every deadline-carrying queue entry; same order as `VerifLeaderQueues`.
+#[cfg(d_engine_verif)]
+#[derive(Debug, Clone, Default, PartialEq, Eq)]
+pub struct VerifLeaderDeadlines {
+    pub pending_client_writes: Vec<(u64, u64)>,
+    pub pending_reads: Vec<(u64, u64)>,
+    pub pending_lease_reads: Vec<u64>,
+    pub pending_commit_actions: Vec<(u64, u64)>,
+    pub replication_timer: u64,
+}
+
+#[cfg(d_engine_verif)]
+impl<T: TypeConfig> LeaderState<T> {
+    pub fn verif_deadlines(&self) -> VerifLeaderDeadlines {
+        let now = Instant::now();
+        let rem = |d: Instant| d.saturating_duration_since(now).as_millis() as u64;
+        VerifLeaderDeadlines {
+            pending_client_writes: self
+                .pending_client_writes
+                .iter()
+                .map(|(k, m)| (*k, rem(m.deadline)))
+                .collect(),
+            pending_reads: self.pending_reads.iter().map(|(k, b)| (*k, rem(b.deadline))).collect(),
+            pending_lease_reads: self.pending_lease_reads.iter().map(|e| rem(e.deadline)).collect(),
+            pending_commit_actions: self
+                .pending_commit_actions
+                .iter()
+                .map(|(k, e)| (*k, rem(e.deadline)))
+                .collect(),
+            replication_timer: rem(self.timer.replication_deadline()),
+        }
+    }
+}
